@@ -14,13 +14,13 @@ from vlib.coqfmt import cfloat, cZ, cbool, clist, cpair, copt, cnat
 # ----------------------------------------------------------------------------- metadata kinds
 # name -> (encodable-by-design?, comment).  "table" is a tskit NodeTable / MutationTable.
 KINDS = [
-    "none", "raw_all", "raw_some",
+    "none", "raw_all", "raw_some", "raw_zero",
     "json_perm_nobytes", "json_perm_rows", "json_perm_mnvr", "json_perm_mn_string",
     "json_obj_props", "json_default", "json_default_extra",
     "json_addl_false", "json_addl_false_mnvr",
     "json_required_nobytes", "json_required_rows",
     "json_mn_string_type", "json_mn_integer", "json_vr_min",
-    "struct_with", "struct_with_nobytes", "struct_with_default_nobytes", "struct_without",
+    "struct_with", "struct_with_zero", "struct_with_nobytes", "struct_with_default_nobytes", "struct_without",
     "struct_mn_f32",
     # codec raises something that is not a metadata error (finding C32-undecodable)
     "struct_mn_int", "json_badbytes", "json_array", "json_null_rows", "json_scalar",
@@ -51,6 +51,8 @@ def decorate(table, kind, rng):
         return
     if kind == "raw_all":
         rows(lambda i: b"raw%d" % i)
+    elif kind == "raw_zero":
+        rows(lambda i: b"\x00" * rng.choice([1, 4, 8]))      # metadata PRESENT although every stored byte is zero
     elif kind == "raw_some":
         k = rng.randrange(n)
         rows(lambda i: b"\x00\xff" if i == k else b"")
@@ -111,13 +113,16 @@ def decorate(table, kind, rng):
         table.metadata_schema = MS({"codec": "json", "type": "object",
                                     "properties": {"vr": {"type": "number", "minimum": 0.25}}})
         rows(lambda i: _j({"u": i}))
-    elif kind in ("struct_with", "struct_with_nobytes"):
+    elif kind in ("struct_with", "struct_with_zero", "struct_with_nobytes"):
         table.metadata_schema = MS({"codec": "struct", "type": "object", "properties": {
             "a": {"type": "number", "binaryFormat": "i"}, "mn": {"type": "number", "binaryFormat": "d"},
             "vr": {"type": "number", "binaryFormat": "d"}}})
         if kind == "struct_with":
             sc = table.metadata_schema
             rows(lambda i: sc.validate_and_encode_row({"a": 3 * i + 1, "mn": 1.0, "vr": 2.0}))
+        if kind == "struct_with_zero":                         # every stored byte is zero, yet the rows hold data
+            sc = table.metadata_schema
+            rows(lambda i: sc.validate_and_encode_row({"a": 0, "mn": 0.0, "vr": 0.0}))
     elif kind == "struct_with_default_nobytes":
         table.metadata_schema = MS({"codec": "struct", "type": "object", "properties": {
             "a": {"type": "number", "binaryFormat": "i", "default": 7},
